@@ -2,11 +2,19 @@
 
 package pfcpiface
 
+import (
+	"math/rand"
+
+	"github.com/wmnsk/go-pfcp/ie"
+	"github.com/wmnsk/go-pfcp/message"
+)
+
 // C09 — the session-wide limiter is chosen soundly.
 
 var vC09PDRs = 2
 var vC09List = 2
 var vC09QERs = 3
+var vC09Bursts = 0 // 0: gates and rates (bursts arbitrary); 1: bursts
 
 // vSessionForQer builds a session with symbolic PDR QER-id lists and QERs.
 func vSessionForQer() (*PFCPSession, [][]uint32, []qer) {
@@ -117,4 +125,167 @@ func H_C09_twocalls() {
 	vAssert("stored-and-message-lists-agree-on-count", na == nb)
 	vAssert("stored-and-message-lists-agree-on-id", vImplies(na == 1, a == b))
 	vCover("two")
+}
+
+// ---------------------------------------------------------------------------
+// Rates, gates and bursts as they reach the datapaths.
+
+// H_C09_bess: one QER through bess.SendMsgToUPF/addQER into the in-harness BESS.
+func H_C09_bess() {
+	if vC09Bursts == 0 {
+		vBurstLoose = 1
+	}
+	env := vNewBess()
+	lvl := ApplicationQos
+	mod := AppQerLookup
+	if vBool("session_level") {
+		lvl, mod = SessionQos, SessQerLookup
+	}
+	qfi := []uint8{9, 5}[vChoose("qfi", 2)] // 9: configured burst minimums; 5: defaults
+	q := qer{qerID: vU32("qer_id"), qosLevel: lvl, qfi: qfi, ulStatus: vU8("ul_gate") & 1, dlStatus: vU8("dl_gate") & 1,
+		ulMbr: vU64("ul_mbr") & 0xffffffffff, dlMbr: vU64("dl_mbr") & 0xffffffffff, ulGbr: vU64("ul_gbr") & 0xffffffffff, dlGbr: vU64("dl_gbr") & 0xffffffffff, fseID: vU64("fseid")}
+	cfg := env.b.qciQosMap[0]
+	if c, ok := env.b.qciQosMap[qfi]; ok {
+		cfg = c
+	}
+	env.b.SendMsgToUPF(upfMsgTypeAdd, PacketForwardingRules{qers: []qer{q}}, PacketForwardingRules{})
+	es := env.srv.qos[mod]
+	vAssert("one-uplink-and-one-downlink-entry", len(es) == 2)
+	for k, e := range es {
+		dir, st, mbr, gbr := "uplink", q.ulStatus, q.ulMbr, q.ulGbr
+		if k == 1 {
+			dir, st, mbr, gbr = "downlink", q.dlStatus, q.dlMbr, q.dlGbr
+		}
+		vAssert(dir+":keyed-by-its-direction", e.fields[0] == []uint64{access, core}[k])
+		closed := st != ie.GateStatusOpen
+		both0 := vAnd(mbr == 0, gbr == 0)
+		if vC09Bursts == 0 {
+			vAssert(dir+":closed-gate-drops", vImplies(closed, e.gate == qerGateStatusDrop))
+			vAssert(dir+":both-rates-zero-means-unmetered", vImplies(vAnd(!closed, both0), e.gate == qerGateUnmeter))
+			metered := vAnd(!closed, vAnd(vNot(both0), gbr <= mbr))
+			vAssert(dir+":metered-gate", vImplies(metered, e.gate == qerGateMeter))
+			vAssert(dir+":peak-rate-is-mbr-x-125", vImplies(metered, e.pir == mbr*125))
+			vAssert(dir+":committed-rate-is-gbr-x-125-floored-at-1", vImplies(metered, e.cir == vIteU64(gbr*125 == 0, 1, gbr*125)))
+		} else {
+			// bursts: at least the operator-configured minimum for the QFI, and at
+			// least rate x burst duration (within the rounding slack of the float computation)
+			vAssert(dir+":cbs-at-least-configured-minimum", e.cbs >= uint64(cfg.cbs))
+			vAssert(dir+":pbs-at-least-configured-minimum", e.pbs >= uint64(cfg.pbs))
+			vAssert(dir+":ebs-at-least-configured-minimum", e.ebs >= uint64(cfg.ebs))
+			need := mbr * uint64(cfg.burstDurationMs) / 8
+			slack := 2 + need>>49
+			vAssert(dir+":pbs-at-least-rate-x-burst-duration", e.pbs+slack >= need)
+		}
+	}
+	vObserve("bess-qer", es[0].gate, es[1].gate, es[0].pir, es[1].pir, es[0].cir, es[1].cir)
+	vCover("bess")
+}
+
+// H_C09_up4term: gate -> drop action and QFI -> traffic class on UP4.
+func H_C09_up4term() {
+	qfi, mapTC, defTC := vU8("qfi")&0x3f, vU8("map_tc"), vU8("default_tc")
+	vAssume(mapTC <= 3)
+	vAssume(defTC <= 3)
+	mapped := vBool("qfi_is_mapped")
+	m := map[uint8]uint8{}
+	if mapped {
+		m[qfi] = mapTC
+	}
+	st := vNewUP4(8, 3, defTC, m)
+	u := st.up4
+	u.conf.QFIToTC = m
+	iface := uint8(access)
+	if vBool("downlink") {
+		iface = core
+	}
+	ue := uint32(0x0afa0005)
+	p := pdr{srcIface: iface, srcIfaceMask: 0xff, ueAddress: ue, pdrID: 1, fseID: 7, farID: 1, qerIDList: []uint32{1}, precedence: 10,
+		tunnelIP4Dst: 0xc6120001, tunnelTEID: 0x99}
+	if iface == core {
+		p.appFilter.dstIP, p.appFilter.dstIPMask = ue, 0xffffffff
+	} else {
+		p.appFilter.srcIP, p.appFilter.srcIPMask = ue, 0xffffffff
+	}
+	u.fseidToUEAddr[7] = ue
+	f := far{farID: 1, fseID: 7, applyAction: vU8("apply_action") & 0xf, dstIntf: 1}
+	if iface == core {
+		f.dstIntf = 0
+	}
+	vAssume(f.applyAction != 0)
+	q := qer{qerID: 1, fseID: 7, qfi: qfi, ulStatus: vU8("ul_gate") & 1, dlStatus: vU8("dl_gate") & 1}
+	err := u.modifyUP4ForwardingConfiguration([]pdr{p}, []far{f}, []qer{q}, 1 /* INSERT */)
+	vAssert("written", err == nil)
+	tbl := "terminations_uplink"
+	gate := q.ulStatus
+	if iface == core {
+		tbl, gate = "terminations_downlink", q.dlStatus
+	}
+	rs := st.srv.decode(tbl)
+	vAssert("one-terminations-entry", len(rs) == 1)
+	r := rs[0]
+	drop := vOr(f.applyAction&ActionDrop != 0, gate == ie.GateStatusClosed)
+	isDrop := r.action == "uplink_term_drop" || r.action == "downlink_term_drop"
+	vAssert("closed-gate-or-dropping-FAR-drops", drop == isDrop)
+	if !isDrop {
+		vCover("forwards")
+		wantTC := uint64(vIteU8(mapped, mapTC, defTC))
+		vAssert("traffic-class-is-the-one-configured-for-the-QFI", r.params["tc"] == wantTC)
+		if iface == core {
+			vAssert("qfi-is-the-QER's", r.params["qfi"] == uint64(qfi))
+		}
+	} else {
+		vCover("drops")
+	}
+}
+
+// H_C09_relabel: creating other rules never re-labels the session-wide
+// limiter: a modification that adds a PDR referencing only the application
+// QER makes the old session QER no longer common to all PDRs; whatever the
+// agent then decides, there is at most one session-level QER and the QER that
+// was session-level is not silently turned into something else while another
+// takes its place in the same breath.
+func H_C09_relabel() {
+	e := vNewEnv(false)
+	e.pc.rng = rand.New(&vRandSource{counter: true})
+	e.dp.fixedCause = 1
+	pdrs, fars, _ := vConcreteRules()
+	// both PDRs reference the application QER 1 and QER 4: QER 4 (the larger
+	// MBR) is the session-wide limiter
+	pdrs[0].qerIDs, pdrs[1].qerIDs = []uint32{1, 4}, []uint32{1, 4}
+	qers := []vQERSpec{{id: 1, qfi: 9, ulMbr: 1000, dlMbr: 2000}, {id: 4, qfi: 0, ulMbr: 50000, dlMbr: 50000}}
+	e.vSend(vEstablishment(1, 0xc0, "cp.test", pdrs, fars, qers))
+	r, ok := e.vLastReply().(*message.SessionEstablishmentResponse)
+	vAssume(ok && vCauseOf(r.Cause) == ie.CauseRequestAccepted)
+	fs, _ := r.UPFSEID.FSEID()
+	s0, _ := e.pc.store.GetSession(fs.SEID)
+	sessBefore := 0
+	for _, q := range s0.qers {
+		if q.qosLevel == SessionQos {
+			sessBefore++
+			vAssert("session-qer-is-the-common-one", q.qerID == 4)
+		}
+	}
+	vAssert("one-session-qer-after-establishment", sessBefore == 1)
+	// add a PDR that references only QER 1
+	np := vPDRSpec{uplink: true, id: 3, prec: 50, teid: 0x4321, n3: [4]byte{198, 18, 0, 1}, ue: [4]byte{10, 250, 0, 5}, farID: 1, qerIDs: []uint32{1}}
+	e.vSend(message.NewSessionModificationRequest(0, 0, fs.SEID, 2, 0, np.create()))
+	m, ok := e.vLastReply().(*message.SessionModificationResponse)
+	vAssume(ok && vCauseOf(m.Cause) == ie.CauseRequestAccepted)
+	s1, _ := e.pc.store.GetSession(fs.SEID)
+	n := 0
+	for _, q := range s1.qers {
+		if q.qosLevel == SessionQos {
+			n++
+		}
+	}
+	vObserve("relabel", n)
+	vTag("modification-adds-pdr-with-other-qer-list")
+	vCover("relabel")
+	vAssert("at-most-one-session-qer-after-adding-a-pdr", n <= 1)
+}
+
+// H_C09_bessburst: as H_C09_bess, asserting the burst sizes.
+func H_C09_bessburst() {
+	vC09Bursts = 1
+	H_C09_bess()
 }
